@@ -152,7 +152,65 @@ fn check_split(rules: &str, merged: &V, data: &V, params: &[V], orders: &[Vec<us
     Ok(checked)
 }
 
+// ------------------------------------------------------------------------------------------------
+// the same scalar text means the same in a parameter file and in the data: the merged document is
+// the concatenation of the texts (block YAML top-level maps), whatever the scalars look like
+
+const RAW_SCALARS: [&str; 26] = [
+    "True", "TRUE", "False", "0x1F", "0o17", "010", ".inf", "-.inf", ".nan", "~", "Yes", "No", "on", "1_000", "9223372036854775808", "18446744073709551615", "1e3", "+5", "null", "Null", "2024-01-01",
+    "\"quoted\"", "'single'", "12:30", "1.0", "-0",
+];
+
+fn raw_case(i: usize) -> CaseResult {
+    let a = RAW_SCALARS[i % RAW_SCALARS.len()];
+    let b = RAW_SCALARS[(i / RAW_SCALARS.len() + i + 1) % RAW_SCALARS.len()];
+    let params = format!("pk: {}\npl:\n- {}\n- {}\npm:\n  x: {}\n", a, a, b, b);
+    let data = format!("dk: {}\ndl:\n- {}\n- {}\ndm:\n  x: {}\nother: 1\n", a, a, b, b);
+    let merged = format!("{}{}", params, data);
+    let mut rules = String::from("rule same_scalar {\n  pk == dk\n}\nrule same_list {\n  pl == dl\n}\nrule same_map {\n  pm == dm\n}\nrule same_first {\n  pl[0] == dk\n}\n");
+    for t in ["is_string", "is_int", "is_float", "is_bool", "is_null"] {
+        rules.push_str(&format!("rule pk_{} {{\n  pk {}\n}}\nrule pmx_{} {{\n  pm.x {}\n}}\n", t, t, t, t));
+    }
+    let dir = fresh_dir("c17r");
+    let (rp, pp, dp, mp) = (dir.join("r.guard"), dir.join("params.yaml"), dir.join("data.yaml"), dir.join("merged.yaml"));
+    write_file(&rp, &rules);
+    write_file(&pp, &params);
+    write_file(&dp, &data);
+    write_file(&mp, &merged);
+    let case = json!({"kind": "raw", "index": i, "params": params, "data": data});
+    let s = |p: &std::path::Path| p.to_string_lossy().to_string();
+    let mut evals = 0;
+    for (what, o) in [("plain", VOpts::plain(Fmt::Single, vec![Show::All])), ("--structured", VOpts::structured(Fmt::Json))] {
+        evals += 2;
+        let m = validate_files(&[s(&rp)], &[s(&mp)], &[], &o, "");
+        let r = validate_files(&[s(&rp)], &[s(&dp)], &[s(&pp)], &o, "");
+        for x in [&m, &r] {
+            if let Some(p) = &x.panic {
+                return CaseResult::Fail(Failure { msg: format!("panic {}", p), sig: format!("panic:{}", p.split(' ').next().unwrap_or("")), case });
+            }
+        }
+        let mode = if what == "plain" { Mode::PlainFiles } else { Mode::StructuredFiles };
+        let same = match (&m.code, &r.code) {
+            (Ok(a), Ok(b)) if a == b && matches!(a, 0 | 19) => observe(mode, &m).ok() == observe(mode, &r).ok(),
+            (Ok(a), Ok(b)) => a == b,
+            (Err(_), Err(_)) => true,
+            _ => false,
+        };
+        if !same {
+            return CaseResult::Fail(Failure {
+                msg: format!("{}: scalars `{}` / `{}` in a parameter file and in the data: -i gives exit {:?} {:?}, the concatenated document gives exit {:?} {:?}", what, a, b, r.code, observe(mode, &r).ok(), m.code, observe(mode, &m).ok()),
+                sig: "c17:raw-scalar-differs".into(),
+                case,
+            });
+        }
+    }
+    CaseResult::Pass(Info { nontrivial: true, key: hash_case(&[&params, &data]), classes: vec!["raw-scalars".into()], evals, sample: if i % 9 == 0 { Some(case) } else { None } })
+}
+
 pub fn replay(case: &J) -> CaseResult {
+    if case["kind"] == "raw" {
+        return raw_case(case["index"].as_u64().unwrap_or(0) as usize);
+    }
     let pv = |k: &str| V::parse_json(case[k].as_str().unwrap_or("null")).unwrap_or(V::Null);
     let params: Vec<V> = case["params"].as_array().map(|a| a.iter().map(|p| V::parse_json(p.as_str().unwrap_or("null")).unwrap_or(V::Null)).collect()).unwrap_or_default();
     let orders: Vec<Vec<usize>> = case["orders"].as_array().map(|a| a.iter().map(|o| o.as_array().map(|x| x.iter().map(|i| i.as_u64().unwrap_or(0) as usize).collect()).unwrap_or_default()).collect()).unwrap_or_default();
@@ -248,11 +306,12 @@ fn random_case(u: &mut Choices, sz: Size) -> CaseResult {
 
 pub fn run(tier: Tier, seed: u64) -> i32 {
     let spec = EvidenceSpec {
-        rule: "A generated top-level map and a document-directed core rules file plus rules that walk the top-level map as a whole (`some this.* == v` and `this[ keys == 'k' ] !empty` per key, `count(this.*)`, `this.* !is_struct`); the map's keys are distributed at random over the data file and 1-3 parameter files; validate is run with -i in every order (<=2 files) or 4 orders (3 files) in five modes (plain and --structured, with -r/-d files and with --payload; --structured over the data file and a copy of it in one run) and compared with validating the pre-merged document through the same mode: same exit code, same PASS/FAIL/SKIP sets and file status. Parameter files are JSON or block YAML (.yaml/.yml), given one by one or as the directory that holds them (beside a .txt file that must not be used). In a quarter of the cases one key is put into two sources, with the same or another value (parameter/parameter or parameter/data): the run must exit with an error (not 0, not 19), the diagnostic must name the key, and no verdict may be printed. Non-trivial: keys come both from parameter files and from data, and there are >=2 parameter files; distinct by hash of rules, merged document and the overlapping key.".into(),
+        rule: "A generated top-level map and a document-directed core rules file plus rules that walk the top-level map as a whole (`some this.* == v` and `this[ keys == 'k' ] !empty` per key, `count(this.*)`, `this.* !is_struct`); the map's keys are distributed at random over the data file and 1-3 parameter files; validate is run with -i in every order (<=2 files) or 4 orders (3 files) in five modes (plain and --structured, with -r/-d files and with --payload; --structured over the data file and a copy of it in one run) and compared with validating the pre-merged document through the same mode: same exit code, same PASS/FAIL/SKIP sets and file status. Parameter files are JSON or block YAML (.yaml/.yml), given one by one or as the directory that holds them (beside a .txt file that must not be used). In a quarter of the cases one key is put into two sources, with the same or another value (parameter/parameter or parameter/data): the run must exit with an error (not 0, not 19), the diagnostic must name the key, and no verdict may be printed. Stage 'raw-scalars': 26 YAML scalar spellings on which YAML versions and loaders disagree (`True`, `0x1F`, `.inf`, `010`, `~`, `Yes`, 2^63, ..) written both into a parameter file and into the data: `-i params` must give the verdicts (equality of the two sides, is_* tests) of the concatenated text. Non-trivial: keys come both from parameter files and from data, and there are >=2 parameter files; distinct by hash of rules, merged document and the overlapping key.".into(),
         assumptions: vec!["verdict comparison is by rule status sets (the merge order of keys is not part of the property)".into()],
     };
     execute("C17", tier, seed, spec, &replay, &|run: &Session| {
         let sz = tier.pick(Size::quick(), Size::thorough());
+        run.run_enum("raw-scalars", RAW_SCALARS.len() * 3, raw_case);
         run.run_random("splits", tier.pick(30_000, 600_000), 1200, |u| random_case(u, sz));
     })
 }
